@@ -122,7 +122,10 @@ CHECKS = {
         "system over arbitrary Q-modules, every state and every h, a palindromic scheme of shears satisfies step(-h) o step(h) = id "
         "(palindromic_reversible); the product of the stage Jacobians (shears with symmetric Hessian blocks, any number of degrees of "
         "freedom) is in Mathlib's symplectic group (M J M^T = J). Implicit methods flagged symplectic: b_i a_ij + b_j a_ji - b_i b_j = 0 and "
-        "table symmetry to 1e-14 on the generated coefficients. Cited: chain rule for the Jacobian of the composition, Lasagni/Sanz-Serna/"
+        "table symmetry to 1e-14 on the generated coefficients; PROVED from it: for any table, any symmetric bilinear form B, any state, step "
+        "of either sign and ANY stage slopes tangent to the invariant, B(y1,y1) - B(y0,y0) = -h^2 sum_ij m_ij B(k_i,k_j) (quadratic_invariant_defect), "
+        "so the three shipped tables change a quadratic invariant by at most 1e-14 h^2 sum|B(k_i,k_j)| per step (symplectic_rk_quadratic_invariants). "
+        "Cited: that the symplectic two-form is such an invariant of the variational system, chain rule for the Jacobian of the composition, Lasagni/Sanz-Serna/"
         "Suris theorem, backward error analysis (no secular energy drift). Measured on the implementation: M^T J M = J by finite "
         "differences, h then -h, long-run energy, for all 6 methods, 4 Hamiltonians, two variable orderings (kick masks).",
    note="Trusted: Lean kernel, standard axioms, translate.py, harness. The step model is tied to the code by C02's exact-rational "
